@@ -13,8 +13,13 @@
    up to MaxCalls functional-API calls on the sample returned last, at any point of the history.
 
    AsCoded   = TRUE : generate_centroids writes through the anchor view (Build and Call)   -> must violate
+                      MissingOK (Build), ArgsUntouched (Call), SameIndexSameSample (Build, GetItem(i),
+                      Call(generate_centroids) on the returned sample that aliases the cache, GetItem(i))
    ViewWrite = TRUE : a step of __getitem__ writes through a view of the cached tensor     -> must violate
-   Expected sizes (MaxReads = 4, MaxCalls = 0): 240 initial states, see the driver's evidence for the count. *)
+                      NothingMutated
+   Measured sizes: Grid = 0, MaxReads = 4: 240 initial states, 28,200 distinct states with MaxCalls = 0
+   (18,660 maximal read histories), 55,920 with MaxCalls = 1;  Grid = 1, MaxReads = 3: 1,728 initial
+   states, 7,830 distinct;  Grid = 2: 40,128 initial states (see the evidence file for the state count). *)
 EXTENDS DataStore
 CONSTANTS MaxReads, MaxCalls, AsCoded, ViewWrite,
           Grid      \* 0: the five families;  1, 2: small-scope exhaustive label sets (see GridFams)
